@@ -1,19 +1,17 @@
 package main
 
 import (
+	"verif/harness/hk"
+
 	"fmt"
-	"io"
-	"log"
 	"regexp"
 	"sort"
 	"strings"
 	"time"
 )
 
-func quietStdLog() *log.Logger { return log.New(io.Discard, "", 0) }
-
-func init() {
-	register(&Component{Name: "session", Rule: "histories over {post x 8 body kinds, GET, client-close, DELETE} x {no id, i-th issued id (live or deleted), never-issued id (garbage / foreign-made / case-changed)} " +
+func main() {
+	hk.Main(&hk.Component{Name: "session", Rule: "histories over {post x 8 body kinds, GET, client-close, DELETE} x {no id, i-th issued id (live or deleted), never-issued id (garbage / foreign-made / case-changed)} " +
 		"in 3 modes x GET on/off x POST-SSE on/off against the real handler behind httptest: every history up to a small length exhaustively, then seeded random longer ones; " +
 		"non-trivial = a distinct history in which at least one session was issued and at least one operation was refused",
 		Run: runSession})
@@ -68,19 +66,19 @@ func sessionAlphabet(n int) []sOp {
 
 var hex32 = regexp.MustCompile(`^[0-9a-f]{32,}$`)
 
-func runSession(c *Ctx) {
-	cfgs := []srvCfg{}
+func runSession(c *hk.Ctx) {
+	cfgs := []hk.SrvCfg{}
 	for _, m := range []string{"stateful", "stateless", "sessionsOff"} {
 		for _, g := range []bool{true, false} {
 			for _, p := range []bool{true, false} {
-				cfgs = append(cfgs, srvCfg{Mode: m, Get: g, PostSSE: p})
+				cfgs = append(cfgs, hk.SrvCfg{Mode: m, Get: g, PostSSE: p})
 			}
 		}
 	}
 	// a second server whose ids are "foreign-made"
-	foreign := newFixture(srvCfg{Mode: "stateful", Get: true, PostSSE: true})
+	foreign := hk.NewFixture(hk.SrvCfg{Mode: "stateful", Get: true, PostSSE: true})
 	defer foreign.Close()
-	fr := foreign.post(nil, bodies["initOk"])
+	fr := foreign.Post(nil, bodies["initOk"])
 	foreignID := fr.Header.Get("Mcp-Session-Id")
 
 	var histories [][]sOp
@@ -159,7 +157,7 @@ func runSession(c *Ctx) {
 		cfg := cfgs[hi%len(cfgs)]
 		if hi < len(a1)*(len(a1)+1) {
 			// the exhaustive part runs in the three main configurations
-			for _, cf := range []srvCfg{{"stateful", true, true}, {"stateless", true, false}, {"sessionsOff", true, true}} {
+			for _, cf := range []hk.SrvCfg{{"stateful", true, true}, {"stateless", true, false}, {"sessionsOff", true, true}} {
 				runSessionHistory(c, cf, h, foreignID, dist)
 			}
 			continue
@@ -169,12 +167,12 @@ func runSession(c *Ctx) {
 	c.SetExtra("status_distribution", dist)
 }
 
-func runSessionHistory(c *Ctx, cfg srvCfg, h []sOp, foreignID string, dist map[string]int) {
-	f := newFixture(cfg)
+func runSessionHistory(c *hk.Ctx, cfg hk.SrvCfg, h []sOp, foreignID string, dist map[string]int) {
+	f := hk.NewFixture(cfg)
 	defer f.Close()
-	ids := []string{}     // symbolic index -> real id
+	ids := []string{}       // symbolic index -> real id
 	idx := map[string]int{} // real id -> symbolic index
-	streams := map[int]*stream{}
+	streams := map[int]*hk.Stream{}
 	expectedAlive := map[int]bool{} // the spec, maintained from accepted issues and accepted deletes only
 	symb := func(real string) any {
 		if real == "" {
@@ -231,7 +229,7 @@ func runSessionHistory(c *Ctx, cfg srvCfg, h []sOp, foreignID string, dist map[s
 		out := map[string]any{"status": 0, "sid": nil, "closed": []int{}}
 		before := map[int]bool{}
 		for s, st := range streams {
-			if !st.ended(0) {
+			if !st.Ended(0) {
 				before[s] = true
 			}
 		}
@@ -239,7 +237,7 @@ func runSessionHistory(c *Ctx, cfg srvCfg, h []sOp, foreignID string, dist map[s
 		switch op.T {
 		case "post":
 			known := len(ids)
-			r := f.post(hdr, bodies[op.K])
+			r := f.Post(hdr, bodies[op.K])
 			out["status"] = r.Status
 			if r.Header != nil {
 				real := r.Header.Get("Mcp-Session-Id")
@@ -247,11 +245,11 @@ func runSessionHistory(c *Ctx, cfg srvCfg, h []sOp, foreignID string, dist map[s
 				if len(ids) > known {
 					// a new id appeared
 					if !(cfg.Mode == "stateful" && refKind == "none" && (op.K == "initOk" || op.K == "initBad")) {
-						c.Violate(Violation{Fingerprint: "session:id-issued-outside-initialize", What: "a fresh session id was issued by an operation other than an initialize without id in stateful mode",
+						c.Violate(hk.Violation{Fingerprint: "session:id-issued-outside-initialize", What: "a fresh session id was issued by an operation other than an initialize without id in stateful mode",
 							Input: map[string]any{"cfg": cfg, "history": h[:oi+1]}, Observed: real})
 					}
 					if !hex32.MatchString(real) {
-						c.Violate(Violation{Fingerprint: "session:id-format", What: "session id is not >=128 bits of lowercase hex", Input: map[string]any{"cfg": cfg}, Observed: real})
+						c.Violate(hk.Violation{Fingerprint: "session:id-format", What: "session id is not >=128 bits of lowercase hex", Input: map[string]any{"cfg": cfg}, Observed: real})
 					}
 					expectedAlive[len(ids)-1] = true
 				}
@@ -259,22 +257,22 @@ func runSessionHistory(c *Ctx, cfg srvCfg, h []sOp, foreignID string, dist map[s
 			if cfg.Mode == "stateful" {
 				isInit := op.K == "initOk" || op.K == "initBad"
 				if refKind == "none" && !isInit && r.Status != 400 {
-					c.Violate(Violation{Fingerprint: "session:missing-id-not-400", What: "non-initialize POST without session id not refused with 400", Input: map[string]any{"cfg": cfg, "history": h[:oi+1]}, Observed: r.Status})
+					c.Violate(hk.Violation{Fingerprint: "session:missing-id-not-400", What: "non-initialize POST without session id not refused with 400", Input: map[string]any{"cfg": cfg, "history": h[:oi+1]}, Observed: r.Status})
 				}
 				if (refKind == "bogus" || (refKind == "sid" && !expectedAlive[refSid])) && r.Status != 404 {
-					c.Violate(Violation{Fingerprint: "session:unknown-id-not-404:post", What: "POST bearing an unknown/deleted session id not refused with 404", Input: map[string]any{"cfg": cfg, "history": h[:oi+1]}, Observed: r.Status})
+					c.Violate(hk.Violation{Fingerprint: "session:unknown-id-not-404:post", What: "POST bearing an unknown/deleted session id not refused with 404", Input: map[string]any{"cfg": cfg, "history": h[:oi+1]}, Observed: r.Status})
 				}
 				if refKind == "sid" && expectedAlive[refSid] && (op.K == "request" || op.K == "initOk") {
 					if r.Status != 200 || out["sid"] != any(refSid) {
-						c.Violate(Violation{Fingerprint: "session:live-id-not-served", What: "request bearing a live session id not served with 200 and the same id", Input: map[string]any{"cfg": cfg, "history": h[:oi+1]}, Observed: map[string]any{"status": r.Status, "sid": out["sid"]}})
+						c.Violate(hk.Violation{Fingerprint: "session:live-id-not-served", What: "request bearing a live session id not served with 200 and the same id", Input: map[string]any{"cfg": cfg, "history": h[:oi+1]}, Observed: map[string]any{"status": r.Status, "sid": out["sid"]}})
 					}
 				}
 			}
 			if cfg.Mode == "stateless" && r.Header != nil && r.Header.Get("Mcp-Session-Id") != "" {
-				c.Violate(Violation{Fingerprint: "session:stateless-issues-id", What: "stateless server emitted a session id", Input: map[string]any{"cfg": cfg, "history": h[:oi+1]}, Observed: r.Header.Get("Mcp-Session-Id")})
+				c.Violate(hk.Violation{Fingerprint: "session:stateless-issues-id", What: "stateless server emitted a session id", Input: map[string]any{"cfg": cfg, "history": h[:oi+1]}, Observed: r.Header.Get("Mcp-Session-Id")})
 			}
 		case "get":
-			status, rh, st, err := f.openStream(hdr)
+			status, rh, st, err := f.OpenStream(hdr)
 			if err != nil {
 				status = 0
 			}
@@ -287,11 +285,11 @@ func runSessionHistory(c *Ctx, cfg srvCfg, h []sOp, foreignID string, dist map[s
 					waitFor = append(waitFor, refSid)
 					_ = old
 				}
-				defer st.closeByClient()
+				defer st.CloseByClient()
 				// replace after waiting for the old one below
-				defer func(s int, st *stream) {}(refSid, st)
+				defer func(s int, st *hk.Stream) {}(refSid, st)
 				if old, ok := streams[refSid]; ok && before[refSid] {
-					if old.ended(2 * time.Second) {
+					if old.Ended(2 * time.Second) {
 						out["closed"] = []int{refSid}
 					}
 					delete(before, refSid)
@@ -299,33 +297,33 @@ func runSessionHistory(c *Ctx, cfg srvCfg, h []sOp, foreignID string, dist map[s
 				streams[refSid] = st
 			}
 			if cfg.Mode == "stateless" && status != 405 {
-				c.Violate(Violation{Fingerprint: "session:stateless-get-not-405", What: "listening stream not refused with 405 in stateless mode", Input: map[string]any{"cfg": cfg, "history": h[:oi+1]}, Observed: status})
+				c.Violate(hk.Violation{Fingerprint: "session:stateless-get-not-405", What: "listening stream not refused with 405 in stateless mode", Input: map[string]any{"cfg": cfg, "history": h[:oi+1]}, Observed: status})
 			}
 			if cfg.Mode == "stateful" && cfg.Get && (refKind == "bogus" || (refKind == "sid" && !expectedAlive[refSid])) && status != 404 {
-				c.Violate(Violation{Fingerprint: "session:unknown-id-not-404:get", What: "GET bearing an unknown/deleted session id not refused with 404", Input: map[string]any{"cfg": cfg, "history": h[:oi+1]}, Observed: status})
+				c.Violate(hk.Violation{Fingerprint: "session:unknown-id-not-404:get", What: "GET bearing an unknown/deleted session id not refused with 404", Input: map[string]any{"cfg": cfg, "history": h[:oi+1]}, Observed: status})
 			}
 			if status == 0 {
-				c.Violate(Violation{Fingerprint: "session:get-aborted:" + cfg.Mode, What: "GET made the handler abort the connection (panic recovered by net/http)", Input: map[string]any{"cfg": cfg, "history": h[:oi+1]}, Observed: fmt.Sprint(err)})
+				c.Violate(hk.Violation{Fingerprint: "session:get-aborted:" + cfg.Mode, What: "GET made the handler abort the connection (panic recovered by net/http)", Input: map[string]any{"cfg": cfg, "history": h[:oi+1]}, Observed: fmt.Sprint(err)})
 			}
 		case "close":
 			if st, ok := streams[*op.Sid]; ok {
-				st.closeByClient()
+				st.CloseByClient()
 				delete(streams, *op.Sid)
 				delete(before, *op.Sid)
 			}
 			out["status"] = 200
 		case "delete":
-			r := f.do("DELETE", f.URL, hdr, nil)
+			r := f.Do("DELETE", f.URL, hdr, nil)
 			out["status"] = r.Status
 			if r.Header != nil {
 				out["sid"] = symb(r.Header.Get("Mcp-Session-Id"))
 			}
 			if r.Status == 200 && refKind == "sid" {
 				if st, ok := streams[refSid]; ok && before[refSid] {
-					if st.ended(2 * time.Second) {
+					if st.Ended(2 * time.Second) {
 						out["closed"] = []int{refSid}
 					} else {
-						c.Violate(Violation{Fingerprint: "session:delete-leaves-stream", What: "DELETE did not end the session's open stream", Input: map[string]any{"cfg": cfg, "history": h[:oi+1]}})
+						c.Violate(hk.Violation{Fingerprint: "session:delete-leaves-stream", What: "DELETE did not end the session's open stream", Input: map[string]any{"cfg": cfg, "history": h[:oi+1]}})
 					}
 					delete(before, refSid)
 					delete(streams, refSid)
@@ -333,12 +331,12 @@ func runSessionHistory(c *Ctx, cfg srvCfg, h []sOp, foreignID string, dist map[s
 				delete(expectedAlive, refSid)
 			}
 			if cfg.Mode == "stateful" && (refKind == "bogus" || (refKind == "sid" && r.Status != 200 && !expectedAlive[refSid])) && r.Status != 404 {
-				c.Violate(Violation{Fingerprint: "session:unknown-id-not-404:delete", What: "DELETE bearing an unknown/deleted session id not refused with 404", Input: map[string]any{"cfg": cfg, "history": h[:oi+1]}, Observed: r.Status})
+				c.Violate(hk.Violation{Fingerprint: "session:unknown-id-not-404:delete", What: "DELETE bearing an unknown/deleted session id not refused with 404", Input: map[string]any{"cfg": cfg, "history": h[:oi+1]}, Observed: r.Status})
 			}
 		}
 		// streams of other sessions that ended although nothing addressed them
 		for s := range before {
-			if st, ok := streams[s]; ok && st.ended(0) {
+			if st, ok := streams[s]; ok && st.Ended(0) {
 				cl := out["closed"].([]int)
 				out["closed"] = append(cl, s)
 				delete(streams, s)
@@ -367,7 +365,7 @@ func runSessionHistory(c *Ctx, cfg srvCfg, h []sOp, foreignID string, dist map[s
 				}
 				sort.Ints(exp)
 				if fmt.Sprint(exp) != fmt.Sprint(l) {
-					c.Violate(Violation{Fingerprint: "session:live-set-differs-from-history", What: "GetActiveSessions differs from the set the history leaves alive",
+					c.Violate(hk.Violation{Fingerprint: "session:live-set-differs-from-history", What: "GetActiveSessions differs from the set the history leaves alive",
 						Input: map[string]any{"cfg": cfg, "history": h[:oi+1]}, Observed: l, Expected: exp})
 				}
 			}
@@ -380,7 +378,7 @@ func runSessionHistory(c *Ctx, cfg srvCfg, h []sOp, foreignID string, dist map[s
 		outs = append(outs, out)
 	}
 	for _, st := range streams {
-		st.closeByClient()
+		st.CloseByClient()
 	}
 	opsJ := []any{}
 	for _, o := range h {
